@@ -28,10 +28,13 @@ KEY_F13 = "F13:digest-string-masquerade"
 REQ = """From Coq Require Import ZArith List Bool.
 Require Import JV.Base.C08_MD5 JV.Model.HashEnc.
 Import ListNotations. Open Scope Z_scope."""
-DEFS = """Definition show (r : option (list Z)) : Z * Z * list Z :=
+DEFS = """Definition poly (b : list Z) : Z := fold_left (fun acc x => (acc * 257 + x + 1) mod 4294967291) b 0.
+Definition show (r : option (list Z)) : Z * Z * list Z :=
   match r with
   | None => (2, 0, [])
-  | Some b => if (length b <=? 300)%nat then (0, zlen b, b) else (1, zlen b, md5_hex b)
+  | Some b => if (length b <=? 300)%nat then (0, zlen b, b)
+              else if (length b <=? 4096)%nat then (1, zlen b, md5_hex b)
+              else (3, zlen b, [poly b] ++ firstn 24 b ++ firstn 24 (rev b))
   end."""
 
 RUNS = [("0", "id"), ("1", "rev+share"), ("2", "shuf:1"), ("random", "shuf:2+share")]
@@ -158,7 +161,7 @@ def parse_show(s):
 def model_streams(ctx, iters, name="c08"):
     """[(tag, length, bytes-or-md5hex)] for the specs (as iterated by the implementation)"""
     exprs = ["show (enc_top md5_hex %s)" % g.coq_value(s) for s in iters]
-    k = max(1, min(4 * common.NCPU, len(exprs) // 60 + 1))     # many small shards: short processes, small pipes
+    k = max(1, min(4 * common.NCPU, len(exprs) // 40 + 1))     # many small shards: short processes, small pipes
     order = [i for r in range(k) for i in range(r, len(exprs), k)]       # interleave: balance the shards
     shard = (len(exprs) + k - 1) // k
     vals = ctx.coq_eval_lines(REQ, DEFS, [exprs[i] for i in order], name=name, shard=max(shard, 1), timeout=1500)
@@ -175,6 +178,11 @@ def agree(model, stream_hex):
         return bytes(bs) == b
     if tag == 1:
         return n == len(b) and bytes(bs).decode("ascii") == hashlib.md5(b).hexdigest()
+    if tag == 3:          # long streams: length, polynomial checksum, both ends (md5 in Gallina costs ~10 CPU-s per 64 KiB)
+        acc = 0
+        for x in b:
+            acc = (acc * 257 + x + 1) % 4294967291
+        return n == len(b) and bs == [acc] + list(b[:24]) + list(b[::-1][:24])
     return False
 
 
@@ -340,7 +348,7 @@ def x_model(ctx, cases, res):
     exprs = ["showx (enc_x_top md5_hex %s %s)" % ("true" if c.get("coerce") else "false", g.coq_xvalue(r["desc"]))
              for c, r in rows]
     exprs.append("showx (Some [np_u1_dtype_pickle; f18_stream; f18_payload])")
-    vals = ctx.coq_eval_lines(REQX, DEFSX, exprs, name="c08x", shard=max(8, len(exprs) // (2 * common.NCPU) + 1), timeout=1500)
+    vals = ctx.coq_eval_lines(REQX, DEFSX, exprs, name="c08x", shard=max(25, len(exprs) // (2 * common.NCPU) + 1), timeout=1500)
     bad = []
     for (c, r), v in zip(rows, vals):
         if not chunks_agree(parse_showx(v), r["chunks"]):
@@ -389,7 +397,25 @@ def run(ctx):
     ]
     import time as _t
     T = {"t0": _t.time()}
+    # 1. regenerate coq/Gen/C08_Constants.v from the CURRENT source (fail-closed); Proofs/HashEncGenTie.v ties the
+    #    model's hand-copied constants to it, so a changed constant breaks the proof stage
+    gen_error = None
+    try:
+        rc0, out0, err0 = common.run_impl("c08_impl.py", input_text="", timeout=300)
+        live0 = json.loads(out0.splitlines()[0])["const"]
+        text = g.gen_constants(os.path.join(common.REPO, "joblib", "hashing.py"), live0)
+        if common.write_if_changed(os.path.join(common.COQ, "Gen", "C08_Constants.v"), text):
+            ctx.note("Gen/C08_Constants.v changed: joblib/hashing.py or the pickle constants differ from the last run")
+    except (g.GenError, KeyError, IndexError, ValueError, SyntaxError) as e:
+        gen_error = "%s: %s" % (type(e).__name__, e)
     proofs_ok = ctx.standard_proof_stage("C08", search=lambda: search_failing(ctx))
+    if gen_error:
+        hit = search_failing(ctx)
+        if hit:
+            ctx.violation(hit[0], dict(hit[1], generator_error=gen_error), True)
+        else:
+            ctx.violation("the constants generator rejected joblib/hashing.py (%s): the tie of the model's constants is lost"
+                          % gen_error, {"kind": "generator", "error": gen_error}, found_input=False)
     T["proofs"] = _t.time()
 
     n_random = 1200 if quick else 20000
@@ -415,7 +441,7 @@ def run(ctx):
 
     # 3. correspondence
     # byte-exact tie: every boundary case + a sample of the rest (the oracle above ran on everything)
-    n_model = min(len(specs), 1500 if quick else 7000)
+    n_model = min(len(specs), 900 if quick else 7000)
     must = [i for i, (_, o) in enumerate(uni) if o in ("special", "corpus")]
     rest = [i for i, (_, o) in enumerate(uni) if o not in ("special", "corpus")]
     idx = sorted(must + ctx.rng.sample(rest, max(0, min(len(rest), n_model - len(must)))))
